@@ -897,7 +897,7 @@ func (fr *Frame) unop(st *State, in *ssa.UnOp) *Term {
 			}
 		}
 		var v *Term
-		if g, ok := in.X.(*ssa.Global); ok && !fr.fc.initMode {
+		if g, ok := in.X.(*ssa.Global); ok && (!fr.fc.initMode || (fr.fn.Pkg != nil && g.Pkg != fr.fn.Pkg)) {
 			v = fr.fc.eng.loadGlobal(fr, st, g, a)
 		} else {
 			v = fr.fc.load(st, a)
